@@ -12,6 +12,8 @@ import (
 	"time"
 )
 
+var _ = sort.Strings
+
 // ---------------------------------------------------------------- threads
 
 type Thread struct {
@@ -38,6 +40,7 @@ type Op struct {
 	Obj     interface{}
 	Enabled func() bool
 	waits   []chanWait // channel waiting info (for rendezvous partner lookup)
+	kh      uint64
 }
 
 type chanWait struct {
@@ -63,8 +66,11 @@ type Point struct {
 	Chosen     int
 	CurEnabled bool // the library thread that ran last is still enabled (alternative 0)
 	Labels     []string
-	Free       []bool // alternative i is free (env thread / timer / internal choice)
+	FreeMask   uint64 // bit i set: alternative i is free (env thread / timer / internal choice); alternatives >= 64 count as free
 }
+
+// Free reports whether alternative i is free.
+func (p *Point) Free(i int) bool { return i >= 64 || p.FreeMask&(1<<uint(i)) != 0 }
 
 type timer struct {
 	id        int
@@ -96,6 +102,7 @@ type Sched struct {
 	objH      map[interface{}]uint64
 	NoCurSig  bool // leave the running thread out of state signatures (unbounded search)
 	Steps     int
+	tsBuf     []transition
 }
 
 func mix(h uint64, vs ...uint64) uint64 {
@@ -143,30 +150,33 @@ func (s *Sched) touch(t *Thread, obj interface{}, kind string) {
 		ho = mix(s.objH[obj]+1, t.UID, uint64(t.nops))
 		s.objH[obj] = ho
 	}
-	t.h = mix(t.h+1, hstr(kind), ho)
+	kh, ok := kindHashes[kind]
+	if !ok {
+		kh = hstr(kind)
+		kindHashes[kind] = kh
+	}
+	t.h = mix(t.h+1, kh, ho)
 }
 
 func (s *Sched) signature() uint64 {
-	h := uint64(7)
-	// threads in UID order, so that the signature does not depend on creation order
-	ts := make([]*Thread, len(s.threads))
-	copy(ts, s.threads)
-	sort.Slice(ts, func(i, j int) bool { return ts[i].UID < ts[j].UID })
-	for _, t := range ts {
+	// per-thread contributions are combined commutatively (sum), so the signature does not
+	// depend on thread creation order and no sorting is needed
+	var sum uint64
+	for _, t := range s.threads {
 		d := uint64(0)
 		if t.done {
 			d = 1
 		}
 		pend := uint64(0)
 		if t.op != nil {
-			pend = hstr(t.op.Kind)
+			pend = t.op.kindHash()
 		}
 		if t.hasRes {
 			pend ^= 0x5555
 		}
-		h = mix(h, t.UID, t.h, d, pend)
+		sum += mix(t.UID, t.h, d, pend)
 	}
-	h = mix(h, uint64(s.Now))
+	h := mix(7, sum, uint64(s.Now))
 	for _, tm := range s.timers {
 		st := uint64(0)
 		if tm.fired {
@@ -182,6 +192,20 @@ func (s *Sched) signature() uint64 {
 	return h
 }
 
+var kindHashes = map[string]uint64{}
+
+func (o *Op) kindHash() uint64 {
+	if o.kh == 0 {
+		h, ok := kindHashes[o.Kind]
+		if !ok {
+			h = hstr(o.Kind)
+			kindHashes[o.Kind] = h
+		}
+		o.kh = h
+	}
+	return o.kh
+}
+
 // S is the scheduler of the execution in progress (nil outside executions).
 var S *Sched
 
@@ -193,7 +217,7 @@ func (s *Sched) logf(format string, a ...interface{}) {
 
 // Event records a harness-visible event in the trace (no scheduling point).
 func Event(format string, a ...interface{}) {
-	if S != nil {
+	if S != nil && S.KeepTrace {
 		S.logf(format, a...)
 	}
 }
@@ -257,7 +281,9 @@ func GoNamed(name string, env bool, f func()) *Thread {
 		return nil
 	}
 	t := newThread(fmt.Sprintf("%s#%d", name, len(S.threads)), env)
-	S.logf("%s spawns %s", S.curName(), t.Name)
+	if S.KeepTrace {
+		S.logf("%s spawns %s", S.curName(), t.Name)
+	}
 	if S.cur != nil {
 		S.touch(S.cur, nil, "spawn")
 	}
@@ -321,8 +347,8 @@ func (s *Sched) choose(n int, label string) int {
 		if s.KeepLabels {
 			p.Labels = append(p.Labels, fmt.Sprintf("%s:%d", label, i))
 		}
-		p.Free = append(p.Free, true)
 	}
+	p.FreeMask = ^uint64(0)
 	c := 0
 	if len(s.Points) < len(s.prefix) {
 		c = s.prefix[len(s.Points)]
@@ -336,7 +362,9 @@ func (s *Sched) choose(n int, label string) int {
 	if s.cur != nil {
 		s.cur.h = mix(s.cur.h, uint64(c)+17)
 	}
-	s.logf("choice %s -> %d of %d", label, c, n)
+	if s.KeepTrace {
+		s.logf("choice %s -> %d of %d", label, c, n)
+	}
 	return c
 }
 
@@ -348,13 +376,17 @@ type transition struct {
 }
 
 func (s *Sched) enabled() []transition {
-	var ts []transition
+	ts := s.tsBuf[:0]
 	add := func(t *Thread) {
 		if t.done || t.op == nil {
 			return
 		}
 		if t.hasRes || t.op.Enabled() {
-			ts = append(ts, transition{t: t, label: t.Name + ":" + t.op.Kind, free: t.Env})
+			tr := transition{t: t, free: t.Env}
+			if s.KeepLabels {
+				tr.label = t.Name + ":" + t.op.Kind
+			}
+			ts = append(ts, tr)
 		}
 	}
 	// canonical order: the library thread that ran last first (if still enabled), then by id
@@ -369,15 +401,22 @@ func (s *Sched) enabled() []transition {
 	}
 	for _, tm := range s.timers {
 		if !tm.fired && !tm.cancelled && tm.deadline <= s.Now {
-			ts = append(ts, transition{tm: tm, label: "timer:" + tm.label, free: true})
+			tr := transition{tm: tm, free: true}
+			if s.KeepLabels {
+				tr.label = "timer:" + tm.label
+			}
+			ts = append(ts, tr)
 		}
 	}
+	s.tsBuf = ts
 	return ts
 }
 
 // Run executes one complete execution of body under the choice prefix (choice 0 afterwards).
 func Run(prefix []int, keepTrace bool, horizon time.Duration, noCurSig bool, body func()) *Sched {
 	s := &Sched{yield: make(chan struct{}), prefix: prefix, MaxSteps: 20000, KeepTrace: keepTrace, KeepLabels: keepTrace, Horizon: horizon, NoCurSig: noCurSig}
+	s.Points = make([]Point, 0, 256)
+	s.tsBuf = make([]transition, 0, 16)
 	S = s
 	resetGlobals()
 	main := newThread("harness", true)
@@ -409,11 +448,13 @@ func Run(prefix []int, keepTrace bool, horizon time.Duration, noCurSig bool, bod
 		}
 		p := Point{NEnabled: len(ts), Sig: s.signature()}
 		p.CurEnabled = s.lastLib != nil && ts[0].t == s.lastLib
-		for _, tr := range ts {
+		for i, tr := range ts {
 			if s.KeepLabels {
 				p.Labels = append(p.Labels, tr.label)
 			}
-			p.Free = append(p.Free, tr.free)
+			if tr.free && i < 64 {
+				p.FreeMask |= 1 << uint(i)
+			}
 		}
 		c := 0
 		if len(s.Points) < len(s.prefix) {
@@ -428,7 +469,9 @@ func Run(prefix []int, keepTrace bool, horizon time.Duration, noCurSig bool, bod
 		tr := ts[c]
 		if tr.tm != nil {
 			tr.tm.fired = true
-			s.logf("timer %s fires", tr.tm.label)
+			if s.KeepTrace {
+				s.logf("timer %s fires", tr.tm.label)
+			}
 			s.cur = nil
 			tr.tm.fire()
 			continue
@@ -437,7 +480,9 @@ func Run(prefix []int, keepTrace bool, horizon time.Duration, noCurSig bool, bod
 		if !tr.t.Env {
 			s.lastLib = tr.t
 		}
-		s.logf("run %s", tr.label)
+		if s.KeepTrace {
+			s.logf("run %s", tr.label)
+		}
 		if tr.t.op != nil {
 			s.touch(tr.t, tr.t.op.Obj, tr.t.op.Kind)
 		}
